@@ -226,7 +226,18 @@ func WaitAll() {
 		close(thrStart)
 	}
 	thrWG.Wait()
-	time.Sleep(2 * time.Millisecond)
+	// closers spawned by the code under test: wait until the number of goroutines has
+	// stopped changing (at most 100 ms)
+	time.Sleep(500 * time.Microsecond)
+	prev, same := runtime.NumGoroutine(), 0
+	for i := 0; i < 200 && same < 3; i++ {
+		time.Sleep(500 * time.Microsecond)
+		if n := runtime.NumGoroutine(); n == prev {
+			same++
+		} else {
+			prev, same = n, 0
+		}
+	}
 	thrMu.Lock()
 	p := thrPanic
 	thrMu.Unlock()
